@@ -804,3 +804,145 @@ Example list_from_empty_example :
   oks2 [] [NewAfter 1 0 false 0; NewBefore 2 0 true 1; NewBefore 3 2 false 0; NewAfter 4 1 false 0; MoveAfter 1 2; Delete 4]
   /\ fold_left abs_op2 [NewAfter 1 0 false 0; NewBefore 2 0 true 1; NewBefore 3 2 false 0; NewAfter 4 1 false 0; MoveAfter 1 2; Delete 4] [] = [3; 2; 1].
 Proof. split; [vm_compute; intuition congruence|vm_compute; reflexivity]. Qed.
+
+(* ---------------------------------------------------------------- SwapLines *)
+Lemma nxt_in : forall s l x, repr s l -> In x l -> nxt s x = 0 \/ In (nxt s x) l.
+Proof.
+  intros s l x R H. destruct (split_nodup l x (proj1 R) H) as (l1 & l2 & -> & A & B).
+  destruct R as (ND & N0 & Hh & Ht & C). apply chain_app in C. destruct C as [_ C]. cbn [chain] in C. destruct C as (_ & Cn & _).
+  rewrite Cn. destruct l2 as [|z l2']; [left; reflexivity|]. right. apply in_or_app. right. right. left. reflexivity.
+Qed.
+
+Lemma first_go_in : forall fuel s l first pc, repr s l -> In first l -> (pc = 0 \/ In pc l) -> In (first_go fuel s first pc) l.
+Proof.
+  induction fuel as [|f IH]; intros s l first pc R Hf Hp; [exact Hf|].
+  cbn [first_go]. destruct (Nat.eqb_spec pc 0) as [E|E]; [exact Hf|]. simpl.
+  destruct (isnl s pc); [exact Hf|]. destruct Hp as [Hp|Hp]; [contradiction|].
+  apply IH; auto. destruct (prv_in s l pc R Hp) as [E0|[E1 _]]; [left; exact E0|right; exact E1].
+Qed.
+
+Lemma first_on_line_in : forall fuel s l x, repr s l -> In x l -> In (first_on_line fuel s x) l.
+Proof.
+  intros fuel s l x R H. unfold first_on_line. apply first_go_in; auto.
+  destruct (prv_in s l x R H) as [E0|[E1 _]]; [left; exact E0|right; exact E1].
+Qed.
+
+Lemma set_nlc_repr : forall s l k v, repr s l -> repr (set_nlc s k v) l.
+Proof. intros s l k v (ND & N0 & Hh & Ht & C). unfold repr. repeat split; auto. apply chain_ext with (s := s); auto. Qed.
+
+(** the conditions the two loops and the final Swap of Chunk::SwapLines rely on, evaluated along the very states the loops go through *)
+Fixpoint loop1_guard (fuel : nat) (s : st) (pc1 pc2 : nat) : bool :=
+  match fuel with
+  | O => true
+  | S f => if Nat.eqb pc2 0 || isnl s pc2 then true
+           else negb (Nat.eqb pc2 pc1) && loop1_guard f (add_before (remove s pc2) pc2 pc1) pc1 (nxt s pc2)
+  end.
+Fixpoint loop2_guard (fuel : nat) (s : st) (pc1 ref2 : nat) : bool :=
+  match fuel with
+  | O => true
+  | S f => if Nat.eqb pc1 0 || isnl s pc1 then true
+           else negb (Nat.eqb pc1 ref2) &&
+                loop2_guard f (let s1 := remove s pc1 in if Nat.eqb ref2 0 then add_head s1 pc1 else add_after s1 pc1 ref2) (nxt s pc1) pc1
+  end.
+
+Lemma loop1_perm : forall fuel s l pc1 pc2, repr s l -> In pc1 l -> (pc2 = 0 \/ In pc2 l) -> loop1_guard fuel s pc1 pc2 = true ->
+  exists l', repr (fst (sl_loop1 fuel s pc1 pc2)) l' /\ Permutation l l' /\ (snd (sl_loop1 fuel s pc1 pc2) = 0 \/ In (snd (sl_loop1 fuel s pc1 pc2)) l').
+Proof.
+  induction fuel as [|f IH]; intros s l pc1 pc2 R H1 H2 G.
+  - exists l. simpl. split; [exact R|split; [reflexivity|exact H2]].
+  - cbn [sl_loop1 loop1_guard] in *. destruct (Nat.eqb pc2 0 || isnl s pc2) eqn:E.
+    + exists l. simpl. split; [exact R|split; [reflexivity|exact H2]].
+    + apply andb_true_iff in G. destruct G as [G1 G2]. apply negb_true_iff, Nat.eqb_neq in G1.
+      apply orb_false_iff in E. destruct E as [E0 _]. apply Nat.eqb_neq in E0. destruct H2 as [H2|H2]; [contradiction|].
+      destruct (remove_abs s l pc2 R H2) as (R1 & N1 & P1 & _).
+      assert (Hin1 : In pc1 (rem pc2 l)) by (apply rem_in_other; auto).
+      assert (Hn2 : ~ In pc2 (rem pc2 l)) by (apply rem_notin; exact (proj1 R)).
+      destruct (add_before_abs _ _ pc1 pc2 R1 Hin1 E0 Hn2 N1 P1) as (R2 & _).
+      assert (PM : Permutation l (ins_before pc1 pc2 (rem pc2 l))).
+      { rewrite (rem_perm l pc2 H2) at 1. apply ins_before_perm. exact Hin1. }
+      destruct (IH _ _ pc1 (nxt s pc2) R2) as (l' & R' & P' & S'); auto.
+      * apply (Permutation_in _ PM). exact H1.
+      * destruct (nxt_in s l pc2 R H2) as [Z|Z]; [left; exact Z|right; apply (Permutation_in _ PM); exact Z].
+      * exists l'. split; [exact R'|]. split; [transitivity (ins_before pc1 pc2 (rem pc2 l)); assumption|exact S'].
+Qed.
+
+Lemma loop2_perm : forall fuel s l pc1 ref2, repr s l -> (pc1 = 0 \/ In pc1 l) -> (ref2 = 0 \/ In ref2 l) -> loop2_guard fuel s pc1 ref2 = true ->
+  exists l', repr (fst (sl_loop2 fuel s pc1 ref2)) l' /\ Permutation l l' /\ (snd (sl_loop2 fuel s pc1 ref2) = 0 \/ In (snd (sl_loop2 fuel s pc1 ref2)) l').
+Proof.
+  induction fuel as [|f IH]; intros s l pc1 ref2 R H1 H2 G.
+  - exists l. simpl. split; [exact R|split; [reflexivity|exact H1]].
+  - cbn [sl_loop2 loop2_guard] in *. destruct (Nat.eqb pc1 0 || isnl s pc1) eqn:E.
+    + exists l. simpl. split; [exact R|split; [reflexivity|exact H1]].
+    + apply andb_true_iff in G. destruct G as [G1 G2]. apply negb_true_iff, Nat.eqb_neq in G1.
+      apply orb_false_iff in E. destruct E as [E0 _]. apply Nat.eqb_neq in E0. destruct H1 as [H1|H1]; [contradiction|].
+      destruct (remove_abs s l pc1 R H1) as (R1 & N1 & P1 & _).
+      assert (Hn1 : ~ In pc1 (rem pc1 l)) by (apply rem_notin; exact (proj1 R)).
+      assert (X : exists l2, repr (if Nat.eqb ref2 0 then add_head (remove s pc1) pc1 else add_after (remove s pc1) pc1 ref2) l2 /\ Permutation l l2).
+      { destruct (Nat.eqb_spec ref2 0) as [Z|Z].
+        - exists (pc1 :: rem pc1 l). split; [apply add_head_repr; auto|apply rem_perm; exact H1].
+        - destruct H2 as [H2|H2]; [contradiction|]. assert (Hr : In ref2 (rem pc1 l)) by (apply rem_in_other; auto).
+          exists (ins_after ref2 pc1 (rem pc1 l)). split; [apply add_after_abs; auto|].
+          rewrite (rem_perm l pc1 H1) at 1. apply ins_perm. exact Hr. }
+      destruct X as (l2 & R2 & PM).
+      destruct (IH _ l2 (nxt s pc1) pc1 R2) as (l' & R' & P' & S'); auto.
+      * destruct (nxt_in s l pc1 R H1) as [Z|Z]; [left; exact Z|right; apply (Permutation_in _ PM); exact Z].
+      * right. apply (Permutation_in _ PM). exact H1.
+      * exists l'. split; [exact R'|]. split; [transitivity l2; assumption|exact S'].
+Qed.
+
+Definition swap_guard (s : st) (a b : nat) : bool :=
+  negb (Nat.eqb a b) && (Nat.eqb (prv s a) b || Nat.eqb (prv s b) a || (negb (Nat.eqb (prv s a) 0) && negb (Nat.eqb (prv (remove s a) b) 0))).
+
+Definition swap_lines_guard (fuel : nat) (s : st) (a b : nat) : bool :=
+  let pc1 := first_on_line fuel s a in
+  let pc2 := first_on_line fuel s b in
+  if Nat.eqb pc1 0 || Nat.eqb pc2 0 || Nat.eqb pc1 pc2 then true else
+  loop1_guard fuel s pc1 pc2 &&
+  (let '(s1, pc2') := sl_loop1 fuel s pc1 pc2 in
+   loop2_guard fuel s1 pc1 (prv s pc2) &&
+   (let '(s2, pc1') := sl_loop2 fuel s1 pc1 (prv s pc2) in
+    if Nat.eqb pc1' 0 || Nat.eqb pc2' 0 then true
+    else swap_guard (set_nlc (set_nlc s2 pc1' (nlc s2 pc2')) pc2' (nlc s2 pc1')) pc1' pc2')).
+
+(** Chunk::SwapLines keeps every chunk whenever the conditions its loops and its final Swap rely on hold along the run (an executable
+    hypothesis, evaluated on the same states; it fails exactly in runs like the refuted one below) *)
+Theorem swap_lines_permutes : forall fuel s l a b, repr s l -> In a l -> In b l -> swap_lines_guard fuel s a b = true ->
+  exists l', repr (swap_lines fuel s a b) l' /\ Permutation l l'.
+Proof.
+  intros fuel s l a b R Ha Hb G. unfold swap_lines, swap_lines_guard in *.
+  pose proof (first_on_line_in fuel s l a R Ha) as I1. pose proof (first_on_line_in fuel s l b R Hb) as I2.
+  set (pc1 := first_on_line fuel s a) in *. set (pc2 := first_on_line fuel s b) in *.
+  destruct (Nat.eqb pc1 0 || Nat.eqb pc2 0 || Nat.eqb pc1 pc2) eqn:E0; [exists l; split; [exact R|reflexivity]|].
+  apply andb_true_iff in G. destruct G as [G1 G].
+  destruct (loop1_perm fuel s l pc1 pc2 R I1 (or_intror I2) G1) as (l1 & R1 & P1 & S1).
+  destruct (sl_loop1 fuel s pc1 pc2) as [s1 pc2'] eqn:E1. cbn [fst snd] in *.
+  apply andb_true_iff in G. destruct G as [G2 G].
+  assert (Iref : prv s pc2 = 0 \/ In (prv s pc2) l1).
+  { destruct (prv_in s l pc2 R I2) as [Z|[Z _]]; [left; exact Z|right; apply (Permutation_in _ P1); exact Z]. }
+  destruct (loop2_perm fuel s1 l1 pc1 (prv s pc2) R1 (or_intror (Permutation_in _ P1 I1)) Iref G2) as (l2 & R2 & P2 & S2).
+  destruct (sl_loop2 fuel s1 pc1 (prv s pc2)) as [s2 pc1'] eqn:E2. cbn [fst snd] in *.
+  destruct (Nat.eqb pc1' 0 || Nat.eqb pc2' 0) eqn:E3.
+  { exists l2. split; [exact R2|]. transitivity l1; assumption. }
+  apply orb_false_iff in E3. destruct E3 as [Z1 Z2]. apply Nat.eqb_neq in Z1. apply Nat.eqb_neq in Z2.
+  destruct S2 as [S2|S2]; [contradiction|]. destruct S1 as [S1|S1]; [contradiction|].
+  set (s3 := set_nlc (set_nlc s2 pc1' (nlc s2 pc2')) pc2' (nlc s2 pc1')) in *.
+  assert (R3 : repr s3 l2) by (unfold s3; apply set_nlc_repr, set_nlc_repr; exact R2).
+  unfold swap_guard in G. apply andb_true_iff in G. destruct G as [Gn Gc]. apply negb_true_iff, Nat.eqb_neq in Gn.
+  destruct (swap_permutes s3 l2 pc1' pc2' R3 S2 (Permutation_in _ P2 S1) Gn) as (l3 & R4 & P3).
+  - apply orb_true_iff in Gc. destruct Gc as [Gc|Gc]; [apply orb_true_iff in Gc; destruct Gc as [Gc|Gc]; apply Nat.eqb_eq in Gc; auto|].
+    apply andb_true_iff in Gc. destruct Gc as [Ga Gb]. apply negb_true_iff, Nat.eqb_neq in Ga. apply negb_true_iff, Nat.eqb_neq in Gb. auto.
+  - exists l3. split; [exact R4|]. transitivity l1; [exact P1|]. transitivity l2; assumption.
+Qed.
+
+Definition two_lines : st := cl_run 6 [NewAfter 1 0 false 0; NewAfter 2 1 true 1; NewAfter 3 2 false 0; NewAfter 4 3 true 3].
+Example swap_lines_example :
+  swap_lines_guard 6 two_lines 1 3 = true /\ swap_lines_guard 6 two_lines 3 1 = true /\
+  cl_observe 6 (swap_lines 6 two_lines 1 3) = ([(3, 0); (4, 1); (1, 0); (2, 3)], [2; 1; 4; 3]).
+Proof. vm_compute. repeat split; reflexivity. Qed.
+
+(** outside the hypothesis: the other chunk is the newline of a blank line and the first line opens the list - the final Swap meets the first
+    chunk of the list and a chunk is lost (replayed on the real code through the hook) *)
+Definition blank_second : st := cl_run 5 [NewAfter 1 0 false 0; NewAfter 2 1 true 1; NewAfter 3 2 true 2].
+Theorem swap_lines_blank_line_refuted :
+  swap_lines_guard 5 blank_second 1 3 = false /\ to_list 5 (swap_lines 5 blank_second 1 3) = [1; 2].
+Proof. vm_compute. split; reflexivity. Qed.
